@@ -23,9 +23,11 @@ Record defects := mkDefects {
   d_key_twice     : bool;   (* #20 a stealing first child is offered a key again *)
   d_flush_noclip  : bool;   (* #27 flush hands damage beyond the root's bounds to the root *)
   d_notify_noout  : bool;   (* #28 a notifying parent is not told OUT when the focus moves between its children *)
-  d_chain_norestore : bool  (* #29 show/hide/close change the focus chain without requesting a cursor restore *)
+  d_chain_norestore : bool; (* #29 show/hide/close change the focus chain without requesting a cursor restore *)
+  d_route_unsafe  : bool;   (* #30 input routing follows a `next` pointer saved before calling handlers *)
+  d_drag_stale    : bool    (* #21 the drag source is kept without a reference and never cleared *)
 }.
-Definition no_defects := mkDefects false false false false false false.
+Definition no_defects := mkDefects false false false false false false false false.
 
 (* ------------------------------------------------------------------------------------ *)
 (* Windows                                                                               *)
